@@ -193,13 +193,13 @@ CLAIMED["C06"] = {
             "references, shared_ptr, a Base that really is a Derived, a const Base that is not) and records which overload was entered, how "
             "often and what it received, plus boxed_cast<T> of every argument kind to 13 forms, wrong-arity calls, data-member accessors by four routes, and "
             "seven forms of a parameter reached through a user type_conversion<From, To> (alone, beside a From overload, beside a catch-all) in engines "
-            "with and without the conversion, and std::vector<int> parameters reached through vector_conversion from script Vectors of several element kinds; TLC checks every one of "
+            "with and without the conversion, and std::vector<int> / std::map<std::string, int> parameters reached through vector_conversion / map_conversion from script containers of several element kinds; TLC checks every one of "
             "the ~16,000 rows against the laws of Dispatch.tla (TypeSafe/ConstSafe, ExactWins, ExactlyOnce, NoMatchNoEntry, "
             "ReceivedIsConverted, CastSound) and against a transcription of function_less_than/dispatch/dispatch_with_conversions/boxed_cast, "
             "and checks (SpecSound) that the transcription itself satisfies the laws.",
     "note": "A difference from the transcription that still satisfies the laws is reported as drift in the evidence, not as a violation. "
             "Known finding: an exception of a swallowed type thrown from inside an entered function makes the loop enter a second overload. "
-            "std::function wrappers and map conversions are not in the catalogue yet.",
+            "std::function wrappers are not in the catalogue yet.",
     "technique": "trace validation by TLC of recorded overload resolutions and casts against a TLA+ specification (laws + transcription)",
     "design": "5 C06",
 }
